@@ -9,3 +9,5 @@ import BufrProps.C04
 #print axioms Bufr.C04.C04_af_column_listed
 #print axioms Bufr.C04.C04_marker_refers
 #print axioms Bufr.C04.C04_bitmap_evaluated
+#print axioms Bufr.C04.C04_bitmap_index
+#print axioms Bufr.C04.C04_bitmap_bits
